@@ -201,6 +201,24 @@ def generators():
     return mods
 
 
+def _restore_committed(path):
+    """when a generator declines, the Gen file must be the committed one (generated from the repository the theorems were
+    last proved against), not whatever an earlier run against some other source tree left behind"""
+    import subprocess
+    top = os.path.dirname(os.path.dirname(os.path.abspath(__file__)))
+    rel = os.path.relpath(path, top)
+    try:
+        p = subprocess.run(["git", "-C", top, "show", "HEAD:" + rel], stdout=subprocess.PIPE, stderr=subprocess.DEVNULL, timeout=30)
+    except Exception:
+        return
+    if p.returncode == 0 and p.stdout:
+        text = p.stdout.decode("utf-8")
+        old = open(path).read() if os.path.exists(path) else None
+        if old != text:
+            with open(path, "w") as f:
+                f.write(text)
+
+
 def regenerate(repo, outdir):
     os.makedirs(outdir, exist_ok=True)
     res = {}
@@ -211,6 +229,7 @@ def regenerate(repo, outdir):
             text = g.generate(repo)
         except Exception as e:  # Unsupported, SyntaxError, missing file, ...
             res[name] = "%s: %s" % (type(e).__name__, e)
+            _restore_committed(path)
             continue
         header = "-- GENERATED by harness/gen/%s.py from $DENDROPY_REPO on every run; do not edit.\n" % g.__name__.split(".")[-1]
         text = header + text
